@@ -38,6 +38,25 @@ var solvers = []solverSpec{
 // wallFactor: wall-clock backstop as a multiple of the CPU-time limit.
 const wallFactor = 8
 
+// portfolio: the solver configurations raced on a query. Integer blasting of
+// bit-vectors (smt.bv.solver=2) is used on quantifier-free queries only: on a
+// quantified query it answered unsat for a satisfiable formula (a seeded
+// change of C29 that the other configurations and a hand argument refute).
+func portfolio(script string, short bool) []solverSpec {
+	quantified := strings.Contains(script, "(forall ") || strings.Contains(script, "(exists ")
+	var res []solverSpec
+	for _, sp := range solvers {
+		if sp.name == "z3-new-intblast" && quantified {
+			continue
+		}
+		if short && sp.name != "z3-new" && sp.name != "z3-new-intblast" && !(quantified && sp.name == "z3-new-qi") {
+			continue
+		}
+		res = append(res, sp)
+	}
+	return res
+}
+
 type solveOut struct {
 	solver string
 	answer string // sat | unsat | unknown | timeout | error
@@ -195,11 +214,11 @@ func solveOne(i int, o *Obligation, cfg solveCfg) {
 		all = append(all, r)
 	} else {
 		var a1 []solveOut
-		r, a1 = race(file, solvers[:2], cfg.quickT)
+		r, a1 = race(file, portfolio(script, true), cfg.quickT)
 		all = append(all, a1...)
 	}
 	if r.answer != "sat" && r.answer != "unsat" && !(o.ExpectSat && cfg.tier != "thorough") {
-		r2, a2 := race(file, solvers, cfg.fullT)
+		r2, a2 := race(file, portfolio(script, false), cfg.fullT)
 		all = append(all, a2...)
 		r = r2
 	}
@@ -255,7 +274,7 @@ func solveOne(i int, o *Obligation, cfg solveCfg) {
 			// quantified library facts, which cannot make the path infeasible
 			var b strings.Builder
 			for _, l := range strings.Split(script, "\n") {
-				if strings.HasPrefix(l, "(assert (forall") {
+				if isQuantAssert(l) {
 					continue
 				}
 				b.WriteString(l)
@@ -274,7 +293,7 @@ func solveOne(i int, o *Obligation, cfg solveCfg) {
 		if !o.ExpectSat && strings.Contains(script, "(assert (forall") {
 			var b strings.Builder
 			for _, l := range strings.Split(script, "\n") {
-				if strings.HasPrefix(l, "(assert (forall") {
+				if isQuantAssert(l) {
 					continue
 				}
 				b.WriteString(l)
